@@ -472,7 +472,7 @@ class AbsInt:
             df = None
             if side[0] == 'diff':
                 df = side
-            elif side[0] == 'lin' and side[1] in self.defs and side[2] == 0:
+            elif side[0] == 'lin' and side[1] in self.defs and side[2] == 0 and self.defs[side[1]][0] == 'diff':
                 df = self.defs[side[1]]
             if df is not None and other[0] == 'lin' and other[1] is None:
                 # y - z + k  op  c   ->   y - z  op  c - k
